@@ -34,7 +34,7 @@ PROPS = {
         "assumptions": ["fsync(fd) makes earlier writes to the file durable; fsync(dirfd) makes earlier create/unlink/rename durable", "ptrace is permitted in the sandbox (the check reports itself unable to run otherwise)"],
     },
     "C08": {
-        "suites": ["wal", "crash", "conc"],
+        "suites": ["wal", "crash", "conc", "fsdur"],
         "partial": "stable_refines / get-after-set / isolation are theorems of the sequential model; stable_any_crash (stable store before-or-after under every crash point, crash kind and recovery history; after once acknowledged) is a theorem of Model/Crash.lean; concurrency (callers owning different keys, forced interleaving) and aliasing of returned values are checked on the real BoltDB store by the conc suite; BoltDB's atomic durable commit is trusted",
         "assumptions": ["BoltDB: a write transaction is atomic and durable when Commit returns; Get after Put returns the value"],
     },
@@ -44,8 +44,8 @@ PROPS = {
         "assumptions": ["hash/crc32 Castagnoli = bitwise CRC-32C of Model/Bytes.lean (differential)"],
     },
     "C10": {
-        "suites": ["fault", "segment", "crash"],
-        "partial": "rollback of the writer after failed writes/fsyncs is a theorem about the byte-level model and is compared with the real writer under injected faults (segment suite); the WAL-level statement — every VFS/MetaStore call of a workload as the failing one, transient or persistent, followed by acknowledged appends and a reopen — is decided by the fault suite's ghost-state monitors on the real code (exhaustive over the calls of each generated workload; pairs of failures only through persistent faults)",
+        "suites": ["fault", "faultmodel", "segment", "crash"],
+        "partial": "proved at the WAL level for every history of calls in which each call has at most one failing I/O action (Model.Fault: readers see exactly the calls that returned nil; a clean restart recovers the history with each failed call applied in full or not at all); proved at the byte level for the writer's rollback (Model.Segment). Not covered by a theorem: several failing actions inside one call (persistent faults), failing reads and failing Open — those are explored by the fault suite's ghost-state monitors on the real code; the byte level and the protocol level are linked by matching statements and correspondence, not by a mechanised composition",
         "assumptions": ["reads do not fail", "a failing write lands a prefix of its bytes"],
     },
     "C11": {
